@@ -19,6 +19,8 @@ import (
 	"io"
 	"net"
 	"os"
+	"path/filepath"
+	"runtime"
 	"strconv"
 	"strings"
 	"sync"
@@ -148,7 +150,7 @@ func (a *c10AuthMod) Init(cfg *config.Map) error { return nil }
 func (a *c10AuthMod) AuthPlain(username, password string) error {
 	a.mu.Lock()
 	defer a.mu.Unlock()
-	if username == a.user && password == a.pass {
+	if strings.EqualFold(username, a.user) && password == a.pass {
 		return nil
 	}
 	return fmt.Errorf("c10auth: invalid credentials")
@@ -207,6 +209,8 @@ func (e *c10Endpoint) close() {
 	os.RemoveAll(e.state)
 }
 
+var c10SmtpTimeout = 45 * time.Second
+
 // ---- a minimal SMTP client that sends exactly the bytes it is given ----
 
 type c10Client struct {
@@ -217,7 +221,7 @@ type c10Client struct {
 func (cl *c10Client) reply() (int, string, error) {
 	var text []string
 	for {
-		cl.c.SetReadDeadline(time.Now().Add(60 * time.Second))
+		cl.c.SetReadDeadline(time.Now().Add(c10SmtpTimeout))
 		l, err := cl.rd.ReadString('\n')
 		if err != nil {
 			return 0, strings.Join(text, " | "), err
@@ -318,6 +322,9 @@ func c10Smtp(out *vh.Out, ep *c10Endpoint, op string) {
 		stage = fmt.Sprintf("%s:%d", st, code)
 		if err != nil {
 			stage = st + ":io-error"
+			buf := make([]byte, 1<<20)
+			buf = buf[:runtime.Stack(buf, true)]
+			os.WriteFile(filepath.Join(os.TempDir(), "c10_smtp_hang_stacks.txt"), buf, 0o644)
 			out.Note("smtp i/o error at " + st + ": " + err.Error())
 		}
 		_ = text
@@ -396,7 +403,11 @@ func c10Smtp(out *vh.Out, ep *c10Endpoint, op string) {
 		w.q.Close()
 		out.Stat("smtp.not-accepted." + stage)
 		if ents, _ := os.ReadDir(w.spool); len(ents) != 0 {
-			out.Violation("C10/spool-not-empty-after-refusal", op, fmt.Sprintf("%d files left after the transaction was refused at %s", len(ents), stage))
+			var names []string
+			for _, e := range ents {
+				names = append(names, e.Name())
+			}
+			out.Violation("C10/spool-not-empty-after-refusal", op, fmt.Sprintf("files %v left after the transaction was refused at %s", names, stage))
 		}
 		return
 	}
